@@ -310,8 +310,6 @@ class MessageAssembler:
         self.packet_count = 0
 
     def on_pdu(self, pdu: bytes) -> None:
-        self.packet_count += 1
-
         # Drop empty PDUs sent by remote — accessing pdu[0] below would
         # raise IndexError, propagating up to the L2CAP read loop and
         # tearing down the channel. Same class as #912 (ATT empty PDU).
@@ -367,11 +365,12 @@ class MessageAssembler:
             else:
                 self.number_of_signal_packets = pdu[2]
                 self.message = pdu[3:]
+                self.packet_count = 1
         elif packet_type in (
             Protocol.PacketType.CONTINUE_PACKET,
             Protocol.PacketType.END_PACKET,
         ):
-            if self.packet_count == 0:
+            if self.message is None:
                 logger.warning('unexpected continuation')
                 return
 
@@ -389,7 +388,8 @@ class MessageAssembler:
                 )
                 return
 
-            self.message = (self.message or b'') + pdu[1:]
+            self.packet_count += 1
+            self.message += pdu[1:]
 
             if packet_type == Protocol.PacketType.END_PACKET:
                 if self.packet_count != self.number_of_signal_packets:
